@@ -5,7 +5,7 @@ from common import *
 PAGE = 4096
 LENS = [0, 1, 16, 32, 64, 4095, 4096, 4097, 8192, 8193]
 ARR_LENS = [1, 16, 32, 64, 4095, 4096, 4097, 8192, 8193]
-RESULT_OPS = {"lock", "unlock", "ro", "rw", "na", "fsl", "fsro", "newlocked", "genlocked", "newrolocked", "genrolocked", "serde"}
+RESULT_OPS = {"lock", "unlock", "ro", "rw", "na", "fsl", "fsro", "newlocked", "genlocked", "newrolocked", "genrolocked", "serde", "stacklock"}
 EXPECT_PERM = {"P": "w", "UR": "w", "LR": "w", "URO": "r", "LRO": "r", "UNA": "n", "LNA": "n"}
 NEXT = {  # type-state graph: state → op → state   (what the safe API offers)
     "P": {"lock": "LR"},
